@@ -86,6 +86,8 @@ package trusted
 //@   assigns v
 
 //@ trusted func github.com/google/uuid.FromBytes
+//@   ensures ok: len(b) == 16 ==> r1 == nil
+//@   ensures val: len(b) == 16 ==> forall(k, 0, 16, r0[k] == b[k])
 //@   assigns nothing
 
 //@ trusted func (*bytes.Buffer).Write
@@ -95,3 +97,14 @@ package trusted
 //@ trusted func (*bytes.Buffer).Read
 //@   ensures count: 0 <= r0 && r0 <= len(p)
 //@   assigns p, self
+
+//@ trusted func os.Stat
+//@   ensures info: r1 == nil ==> r0 != nil
+//@   assigns nothing
+
+//@ trusted func os.Mkdir
+//@   assigns nothing
+
+//@ trusted func os.OpenFile
+//@   ensures file: r1 == nil ==> r0 != nil
+//@   assigns nothing
